@@ -73,3 +73,20 @@ Definition C13_stop_reached : Prop :=
       (rev (cs_stack c') = from_num start merged \/ from_num start (rev (cs_stack c')) = from_num start canon) /\
       (j_stop c < merged_end \/ from_num start (rev (cs_stack c')) = from_num start canon ->
        In bS (cs_stack c') /\ stop_cut c (fst res0) res).
+
+(* From a cursor: the same, provided the files read up to the bundle of S reach the cursor block (the resolver
+   decides within them; otherwise the stream with stop block ends before the resolver has decided and the one
+   without goes on to undo / announce blocks at or below S: c13_stop_full_refuted).  The join asks the hub for a
+   block number as in number mode. *)
+Definition C13_stop_cursor : Prop :=
+  forall (U : list block) (c : jcfg) (w : world) (ps : list (N * N)) (merged_end : N) (merged forked : list block) (cu : cursor),
+    wf_b U = true -> lib_ok_b LNone U = true -> hub_of_universe U c w ->
+    j_stop c <> 0 -> j_stop c <= file_bound ->
+    StronglySorted (fun a b => bnum a < bnum b) merged -> Forall (fun b => bnum b < merged_end) merged ->
+    j_mode c = 1 -> j_cursor c = Some cu ->
+    filter_pass c SNew = true -> filter_pass c SNewIrr = true ->
+    reached (file_delivery merged (rn (cu_lib cu)) (j_stop c) (j_bundle c)) cu ->
+    snd (stream_run c w ps merged_end merged forked) <> JInvalidArg ->
+    let out0 := fst (stream_run (with_stop c 0) w ps merged_end merged forked) in
+    fst (stream_run c w ps merged_end merged forked) = fst (chain_run c out0) /\
+    (snd (chain_run c out0) = true -> snd (stream_run c w ps merged_end merged forked) = JStop).
